@@ -32,7 +32,7 @@ import (
 )
 
 func init() {
-	observers["C14.run"] = obsC14
+	observers["C14.run"] = retryHang(obsC14, "class=HANG")
 	gens["C14"] = genC14
 }
 
